@@ -588,7 +588,7 @@ func main() {
 	run.Rule("case = (family flow-reject / flow-throttling / flow-warmup / breaker / hotspot-qps / hotspot-concurrency, parameters of the unchanged rule, edit applied to the other rules: identical list, other resource add/remove/modify, same resource add/remove/modify inert rule before/after, duplicate kept, reorder; load path whole-set or per-resource; reload position; generated traffic history). Twin runs at the same relative virtual instants (B shifted by one hour) must produce equal traces of (decision, block type, triggered rule id, requested sleep). Plus: a modified rule with unchanged statistic parameters keeps its window / error count / live counters. distinct = distinct (family, variant, edit, path, reload position, ops).")
 	run.Assume("per-resource state is independent of the resource name and of absolute time modulo one hour", "inert rules never bind (threshold 1e9)", "sleeps are recorded, not slept")
 	clk = vclock.New(1900000000000)
-	n := run.N(400, 12000)
+	n := run.N(1500, 15000)
 	base0 := uint64(1900000800000)
 	for i := 0; i < n; i++ {
 		if run.Skip(i) {
